@@ -35,10 +35,25 @@ const (
 	OpIter                      // full Iter on tree A
 	OpDrop                      // forget tree A
 	OpFlushCache                // the shared node cache loses all its entries (restart / eviction)
+	// OpPersistFail: MakeRoot on tree A in an unhealthy environment. V < 10: every Store call whose node
+	// name falls in class V (sum of the name's bytes mod 3) fails - a choice that does not depend on the
+	// order in which the flush workers issue their calls; V >= 10: Marshal call number V-10 of the flush
+	// fails. If no call is hit the op is an ordinary successful MakeRoot; otherwise MakeRoot is expected
+	// to return an error and to leave no trace.
+	OpPersistFail
 )
 
+// StoreClass is the fault class of a node name (see OpPersistFail).
+func StoreClass(name string) int {
+	s := 0
+	for i := 0; i < len(name); i++ {
+		s += int(name[i])
+	}
+	return s % 3
+}
+
 var opNames = map[OpKind]string{OpIns: "ins", OpDel: "del", OpPersist: "persist", OpReload: "reload", OpReloadJSON: "reloadjson",
-	OpKeep: "keep", OpLoad: "load", OpLoadNoCache: "loadnc", OpClone: "clone", OpCursor: "cursor", OpGet: "get", OpIter: "iter", OpDrop: "drop", OpFlushCache: "flushcache"}
+	OpKeep: "keep", OpLoad: "load", OpLoadNoCache: "loadnc", OpClone: "clone", OpCursor: "cursor", OpGet: "get", OpIter: "iter", OpDrop: "drop", OpFlushCache: "flushcache", OpPersistFail: "persistfail"}
 
 // Op is one transition. K and V index Config.Keys (K may point past it into Probes) and Config.Vals.
 type Op struct {
@@ -59,6 +74,11 @@ func (o Op) String() string {
 		return fmt.Sprintf("%s(r%d->t%d)", opNames[o.Kind], o.B, o.A)
 	case OpClone:
 		return fmt.Sprintf("clone(t%d->t%d)", o.A, o.B)
+	case OpPersistFail:
+		if o.V >= 10 {
+			return fmt.Sprintf("persist(t%d) with Marshal call #%d failing", o.A, o.V-10)
+		}
+		return fmt.Sprintf("persist(t%d) with the Store of every node of name class %d failing", o.A, o.V)
 	}
 	return fmt.Sprintf("%s(t%d)", opNames[o.Kind], o.A)
 }
@@ -413,7 +433,7 @@ func (w *World) Enabled(op Op) bool {
 		return false
 	}
 	switch op.Kind {
-	case OpPersist, OpReload, OpReloadJSON, OpKeep:
+	case OpPersist, OpReload, OpReloadJSON, OpKeep, OpPersistFail:
 		return !w.Cfg.InMemory
 	}
 	return true
@@ -478,10 +498,31 @@ func (w *World) apply(op Op) Res {
 	case OpIter:
 		m := w.Trees[op.A]
 		return guard(func() error { return m.Iter(ctx, func(k, v interface{}) error { return nil }) })
-	case OpPersist, OpReload, OpReloadJSON, OpKeep:
+	case OpPersist, OpReload, OpReloadJSON, OpKeep, OpPersistFail:
 		m := w.Trees[op.A]
 		var root *mast.Root
+		if op.Kind == OpPersistFail {
+			if op.V >= 10 {
+				w.Msh.Reset()
+				w.Msh.FailAt = map[int]bool{op.V - 10: true}
+			} else {
+				cls := op.V
+				w.Store.Gate = func(kind, name string) error {
+					if kind == "store" && StoreClass(name) == cls {
+						return env.ErrInjected
+					}
+					return nil
+				}
+			}
+		}
 		r := guard(func() (err error) { root, err = m.MakeRoot(ctx); return })
+		if op.Kind == OpPersistFail {
+			w.Store.Gate = nil
+			w.Msh.Reset()
+			if r.Err != nil {
+				r.Calls = w.Store.Calls("")
+			}
+		}
 		if r.Err != nil || r.Panic != nil {
 			return r
 		}
@@ -495,7 +536,7 @@ func (w *World) apply(op Op) Res {
 			b.Link = *root.Link
 		}
 		switch op.Kind {
-		case OpPersist:
+		case OpPersist, OpPersistFail:
 			b.Contents = w.ReadContents(m)
 			w.Base[op.A] = b
 		case OpKeep:
